@@ -86,7 +86,7 @@ func c13Extra(r *sessRun, hist []SOp) []explore.Finding {
 
 func c13(c *core.Ctx) {
 	vsync.SeqMode = true
-	c.Budget(70*time.Second, 10*time.Minute)
+	c.Budget(70*time.Second, 13*time.Minute)
 	c.SetRule("breadth-first search over histories of session operations (C08's alphabet over fids {0,1}) with up to 1 (quick) / 2 (thorough) injected file-system failures or early-stopping walks per history; after every history: each entry handle that was ever bound is bound xor released-exactly-once, none is used after release; then Stop is called on that instance and every such handle must have been released exactly once and no fid remain bound. States with equal reference fid table are merged. Concurrent part (controlled scheduler): each operation of the collision alphabet on a bound fid (and some pairs, optionally with one failing file-system call) races with Session.Stop (and Stop alone sweeps 300 bound fids) at every lock / sync.Map / atomic / file-system-call boundary up to the bound (quick 3 / delay 4; thorough: unbounded for one operation against Stop, 4 / delay 7 for pairs and fault variants); oracle: everything returns, the file system sees no overlap and no use after release, every entry bound when the race began has been released exactly once, nothing is bound or locked afterwards, and a later attach is refused")
 	c.Assume("mock file system hands out uniquely identified handles and records Clunk/Remove/consuming Create per handle", "a successful Dirent.Create consumes the parent handle (as ramfs does)")
 	dev := 1
